@@ -596,6 +596,32 @@ func (c *c38) contribute(a *actor, class string, mpk []string, raw []byte) {
 	}
 	c.logf("r%d contributeMpk %s [%s] entries=%d phase=%s -> ok=%v %s", c.round, a.W.Name, class, len(mpk), phaseName(before.PN.Phase), res.OK, trunc(res.Output, 90))
 	c.judgeMPK(a.W, before, mpk, res, class)
+	if res.OK {
+		// "once per participating miner": the stored key set may differ from the one before by the sender's own entry only
+		after := c.read(c.bc.State, c.bc.B, false)
+		var foreign []string
+		for id, m := range after.MPKs.Mpks {
+			if id == a.W.ID {
+				continue
+			}
+			if pm, ok := before.MPKs.Mpks[id]; !ok || fmt.Sprint(pm) != fmt.Sprint(m) {
+				foreign = append(foreign, id)
+			}
+		}
+		for id := range before.MPKs.Mpks {
+			if _, ok := after.MPKs.Mpks[id]; !ok && id != a.W.ID {
+				foreign = append(foreign, id)
+			}
+		}
+		sort.Strings(foreign)
+		if len(foreign) > 0 {
+			who := "a non-member id"
+			if _, ok := before.DKG.SimpleNodes[foreign[0]]; ok {
+				who = "another member's id"
+			}
+			c.lim.Violate("C38:mpk-filed-under-foreign-id", fmt.Sprintf("contributeMpk of %s (%s) succeeded and stored or changed the key of %s (%d entries touched) instead of the sender's own", a.W.Name, class, who, len(foreign)), c.replay(map[string]interface{}{"sender": a.W.Name, "class": class, "foreign": foreign}))
+		}
+	}
 }
 
 func (c *c38) publish(from *world.Wallet, class string, sos *block.ShareOrSigns, raw []byte) {
@@ -742,6 +768,17 @@ func (c *c38) hostile(v vcState) {
 		c.contribute(a, "garbage-content", mpk, nil)
 	case 4: // not JSON / other JSON
 		a := pickMiner()
+		if r.Chance(0.5) {
+			// a well-formed key filed under somebody else's id (another miner or an outsider)
+			other := pickMiner()
+			oid := other.W.ID
+			if r.Chance(0.3) {
+				oid = outsider.ID
+			}
+			raw, _ := json.Marshal(&block.MPK{ID: oid, Mpk: mpkStrings(tbls.MakeDKG(t, max(t, cur.DKG.N), a.W.ID))})
+			c.contribute(a, "foreign-id", nil, raw)
+			return
+		}
 		raw := [][]byte{[]byte(`{}`), []byte(`[]`), []byte(`"x"`), []byte(`{"ID":"someone-else","Mpk":null}`), []byte(`null`)}[r.Intn(5)]
 		c.contribute(a, "malformed", nil, raw)
 	case 5: // shares from whoever, whenever
@@ -788,12 +825,11 @@ func (c *c38) hostile(v vcState) {
 		c.publish(a.W, "foreign-signature", sos, nil)
 	case 10: // a revealed share that does not fit
 		a := pickMiner()
-		if _, has := cur.MPKs.Mpks[a.W.ID]; !has && os.Getenv("VERIF_MINT_CRASHERS") == "" {
-			// CRASHER (off by default so that the rest of the history runs): in the publish phase a revealed share filed under an id
-			// that has no public key makes ShareOrSigns.Validate dereference mpks.Mpks[sos.ID] == nil (block/sos.go:65); contract
-			// code runs in a goroutine without recover, so the panic takes the whole node down. Any client can send it.
-			c.run.Count("crasher_skipped:revealed-share-under-id-without-mpk", 1)
-			return
+		if _, has := cur.MPKs.Mpks[a.W.ID]; !has {
+			// a revealed share filed by a sender that has no stored public key: before repository commit "fix: reject nil share entries
+			// and shares of a sender without mpk" this dereferenced mpks.Mpks[sos.ID] == nil in ShareOrSigns.Validate and killed the
+			// process (contract code runs in a goroutine without recover); it has to be refused
+			c.run.Count("hostile:revealed-share-without-own-mpk", 1)
 		}
 		all := map[string]bool{}
 		for id := range cur.MPKs.Mpks {
@@ -1316,7 +1352,6 @@ func c38Parent(tier string) int {
 	run.Assume("move conditions are judged as necessary conditions only (elapsed rounds from the contract's PhaseRounds, number of keys / share sets against K, kept sharders against min_s, a previous-set miner among the keys); a restart that the statement would not require is not a violation")
 	run.Assume("the chain's own latest finalized magic block stays the genesis one (no finalization in this world); the contract keeps the magic block of each completed view change in its global node, and the oracle tracks the membership in force from the stored bytes of the magic blocks that blocks actually carried")
 	run.Assume("add_miner/add_sharder only take nodes of the chain's current magic block; every third history therefore installs a current magic block (number 2) that also lists 3 new miners and 1 new sharder while the latest finalized one stays genesis, and lowers k_percent/t_percent so that the newcomers alone reach K: only then can a key generation without a previous member be attempted at all")
-	run.Assume("one input class is switched off by default because it kills the process (VERIF_MINT_CRASHERS=1 enables it): in the publish phase a shareSignsOrShares whose id has no stored public key and that carries a revealed share panics in ShareOrSigns.Validate (nil map entry, block/sos.go) inside the contract goroutine")
 	run.Assume("DKG polynomials come from bls.MakeDKG (CSPRNG): key material differs between runs, the case classes are functions of VERIF_SEED")
 	return run.Finish()
 }
